@@ -64,6 +64,9 @@ CHECKS = {
  "C14": dict(cat="exploration", engine="B", technique="stateless preemption-bounded exploration of real OS threads under a baton scheduler (switch points at synchronisation operations) combined with the virtual loop's environment-action placement",
    text="1-2 (thorough 3) concurrent to_thread.run_sync calls x limiter total 1/2 (explicit and default limiter) x abandon_on_cancel x function behaviours (return, raise, wait on a gate, read a contextvar, poll from_thread.check_cancelled also behind a shielded-and-cancelled scope, call back via from_thread.run_sync / run) x gate releases and caller cancellation at every loop scheduling point x all thread schedules with <=1 (thorough 2) preemptions; oracle: result/exception identity, contextvar, running functions <= total and <= borrowed tokens, no token left, cancellation semantics per abandon_on_cancel, check_cancelled raises, no deadlock.",
    note="Trusted: threads are switched only at synchronisation operations (queue get/put, call_soon_threadsafe, Future.result, thread start/join/exit, harness gates, before each loop handle); the code between two such points and each loop callback are treated as atomic; virtual loop instead of selector loop/uvloop; quick tier caps each scenario at 500 executions in order of increasing deviations."),
+ "C15": dict(cat="exploration", engine="B", technique="stateless preemption-bounded exploration of real OS threads (main, portal loop thread, caller threads) under a baton scheduler with switch points at synchronisation operations",
+   text="start_blocking_portal() from a controlled main thread plus two caller threads running scripts of call / start_task_soon + cancel + result / start_task / gate operations, context left normally, with an exception (cancel_remaining), early, or with a task still blocked, plus BlockingPortal used directly with stop() sequences; all thread schedules with <=1 (thorough 2) preemptions; oracle: every callable ran exactly once in the loop thread, futures resolve to exactly their value / exception / cancellation, cancelling a future cancels only that task, tasks have ended when the context exit returns, late calls raise RuntimeError, nothing left pending, no deadlock.",
+   note="Trusted: threads are switched only at synchronisation operations (call_soon_threadsafe, Future.result/cancel, thread start/join/exit, before each loop handle); virtual loop instead of selector loop/uvloop; quick tier caps each scenario at 800 executions ordered by deviations."),
 }
 
 def main():
